@@ -252,6 +252,25 @@ def rand_vector(ver, rng, **kw):
     return render(ver, rand_assignment(ver, rng, **kw), rng)
 
 
+def v2_low_family():
+    """v2 vectors at the low end of the equations (minimal exploitability, at most Partial impacts, low
+    requirements): where the un-clamped base / adjusted-base equation is negative or zero, so the
+    'never negative' clamps and the f(Impact)=0 case are exercised"""
+    import itertools
+    out = []
+    for c, i, a in itertools.product("NP", repeat=3):
+        for cr, ir, ar in itertools.product(["L", None], repeat=3):
+            for cdp in ("N", None, "L"):
+                for td in (None, "H", "L", "N"):
+                    for e in (None, "U"):
+                        f = ["AV:L", "AC:H", "Au:M", "C:" + c, "I:" + i, "A:" + a]
+                        for k, v in (("CR", cr), ("IR", ir), ("AR", ar), ("CDP", cdp), ("TD", td), ("E", e)):
+                            if v is not None:
+                                f.append("%s:%s" % (k, v))
+                        out.append("/".join(f))
+    return out
+
+
 ALPHABET = "AVCNLHPXSEMRUITDOFWY:/.0123456789 acnlx_-\t"
 
 
